@@ -204,18 +204,26 @@ theorem foldTags_spec (field : FieldRefM) (ts : List TagDirective) :
     · obtain ⟨h1, h2, h3, m, hm⟩ := ih st (errs ++ [.ExplicitTagNameRequired]) hinv
       exact ⟨h1, h2, h3, FrontErr.ExplicitTagNameRequired :: m, by simp [hm]⟩
 
-/-- The sites inputs can reach in the `@transform` part of `make_fold`: F-12/N-6 and F-7. -/
-def FoldSite (s : Site) : Prop := FilterSite s ∨ s = .retransform
+/-- Does the fold group carry a re-transform (`@fold @transform … @transform`)? -/
+def FoldGroup.hasRetr (fg : FoldGroup) : Bool :=
+  match fg.transform with
+  | some tg => tg.retransform.isSome
+  | none => false
+
+/-- The sites inputs can reach in the `@transform` part of `make_fold`: F-12/N-6, and F-7 when
+(`r`) the group has a re-transform. -/
+def FoldSite (r : Bool) (s : Site) : Prop := FilterSite s ∨ (s = .retransform ∧ r = true)
 
 theorem foldTransform_sat {st : St} (hinv : st.Inv) (hout : 0 < st.outStack.length)
     (tg : TransformGroup) (foldEid : Eid) (startVid : Vid) (subName : String)
     (subAlias : Option String) (e0 : List FrontErr) :
-    Sat FoldSite (foldTransform st tg foldEid startVid subName subAlias e0)
+    Sat (FoldSite tg.retransform.isSome) (foldTransform st tg foldEid startVid subName subAlias e0)
       (fun r => St.Step st r.1 True ∧ r.1.outStack.length = st.outStack.length ∧
         OutNew st r.1 (fun f => f.vid = startVid) ∧ ∃ more, r.2.1 = e0 ++ more) := by
   unfold foldTransform
   split
-  · exact Or.inr rfl
+  · rename_i hr
+    exact Or.inr ⟨rfl, hr⟩
   · refine Sat.bind ((filtersLoop_sat startVid _ tg.filters st e0 [] hinv).monoK
       (fun _ h => Or.inl h)) fun rf hrf => ?_
     obtain ⟨hinv1, htag1, m1, hm1⟩ := hrf
@@ -243,7 +251,7 @@ theorem foldPost_sat {st : St} (hinv : st.Inv) (hout : 0 < st.outStack.length) {
     {startVid : Vid} (hp : st.path = base ++ [startVid]) (hb : base ≠ []) (fg : FoldGroup)
     (foldEid : Eid) (subName : String) (subAlias : Option String) (subHasOutput : Bool)
     (comp : CompIR) :
-    Sat FoldSite (foldPost st fg foldEid startVid subName subAlias subHasOutput comp)
+    Sat (FoldSite fg.hasRetr) (foldPost st fg foldEid startVid subName subAlias subHasOutput comp)
       (fun r => r.1.Inv ∧ r.1.path = base ∧ r.1.vidStack = st.vidStack ∧
         r.1.outStack.length = st.outStack.length ∧ st.nextVid ≤ r.1.nextVid ∧
         st.nextEid ≤ r.1.nextEid ∧ (∀ p ∈ st.prefixes, p ∈ r.1.prefixes) ∧
@@ -273,7 +281,9 @@ theorem foldPost_sat {st : St} (hinv : st.Inv) (hout : 0 < st.outStack.length) {
         hcommon.2.2.2.2.2.1, hcommon.2.2.2.2.2.2.1, hcommon.2.2.2.2.2.2.2, ?_, ?_⟩
       · intro es h; cases h; simp
       · intro fold h; cases h
-  · rename_i tg _
+  · rename_i tg htg
+    have hretr : fg.hasRetr = tg.retransform.isSome := by simp [FoldGroup.hasRetr, htg]
+    rw [hretr]
     refine Sat.bind (foldTransform_sat hinv2 hout2 tg foldEid startVid subName subAlias _)
       fun t ht => ?_
     obtain ⟨hstep, hlen, hnew, m, hm⟩ := ht
